@@ -401,6 +401,9 @@ fn run_known(args: &Args) -> Report {
         &|u| u.as_str() == "about:#f" && u.fragment().is_none());
     wit(&mut rep, "F-C02-2", &["C02", "C03", "C06"], "a://host//x", Op::SetHost(None), &|u| u.as_str() == "a://x");
     wit(&mut rep, "F-C02-8", &["C02", "C03", "C06"], "a:/p", Op::SetPath("//x".into()), &|u| u.as_str() == "a://x");
+    // fixed (0cfc9d8): set_path on a cannot-be-a-base URL tested for the leading '/' before tab/LF/CR removal
+    wit(&mut rep, "F-C06-6", &["C02", "C03", "C05", "C06"], "a:b", Op::SetPath("\t/ y".into()),
+        &|u| !u.cannot_be_a_base() || u.as_str() == "a:/ y");
     rep
 }
 
